@@ -57,6 +57,10 @@ def route_text(r):
 
 def render(cfg, dev):
     out = []
+    if dev:
+        # every device print carries a login banner whose text looks like configuration; it has to be
+        # skipped as a whole (ios.removeBanner), the route inside is NOT on the device
+        out += ["banner motd ^CC", "ip route 10.1.0.0 255.255.0.0 10.0.0.2", " Unauthorized access prohibited", "^C"]
     xe = dev and cfg.get("xe")
     for n in sorted(cfg["acls"]):
         out.append("ip access-list extended " + n)
